@@ -1,12 +1,13 @@
 SPECIFICATION Spec
 CONSTANTS
   Family = "event1"
-  Versions <- VersionsSix
+  Versions <- VersionsFourQ
   TypesC <- TypesAll
   Depth = "core"
   FieldSet = "core"
+  Entries <- EntriesUntrusted
   MaxOps = 2
-  Heavy <- HeavyMid
+  Heavy <- Heavy8
   HeavyAfter <- HeavyLiteSet
   Muts <- MutsAll
 INVARIANTS TypeOK NoPanic WellOrdered Emit
